@@ -55,6 +55,19 @@ def store(hs, g, path, kind, n):
         g.extend([{'a': v}]); return lambda: g[-1]['a'] is v
     if path == 'iadd':
         g += [{'a': v}]; return lambda: g[-1]['a'] is v
+    if path == 'extend_tuple':
+        g.extend(({'a': v},)); return lambda: g[-1]['a'] is v
+    if path == 'extend_iter':
+        g.extend(iter([{'a': v}])); return lambda: g[-1]['a'] is v
+    if path in ('extend_grid', 'iadd_grid'):
+        # the rows come from another grid (one that may hold them: no declared version, or 3.0)
+        src = hs.Grid(version='3.0', columns=[('a', [])])
+        src.append({'a': v})
+        if path == 'extend_grid':
+            g.extend(src)
+        else:
+            g += src
+        return lambda: g[-1]['a'] is v
     if path == 'setitem':
         g[0] = {'a': v}; return lambda: g[0]['a'] is v
     if path == 'meta_set':
